@@ -362,3 +362,35 @@ contract("specs.ldapmsg:thm_rt_octs",
          requires=["octs_enc(c, xs, 0, n, 0, 4)", "0 <= n", "n <= len(xs)", "0 <= count",
                    "len(nth_rest(c, count)) == 0", "forall(k, 0, count, len(nth_rest(c, k)) > 0)"],
          ensures=["count == n", "implies(0 <= q and q < n, content_of(nth_rest(c, q)) == xs[q])"])
+
+_AVA = "cat(e, tail)"
+contract("specs.ldapmsg:thm_rt_ava_filter",
+         requires=["tlv_of(e, 2, True, num, cat(e_attr, e_val))", "tlv_of(e_attr, 0, False, 4, attr_b)", "tlv_of(e_val, 0, False, 4, val)"],
+         # decoder (contracts/decode.py, _unpack_filter_attribute_value_assertion): class 2, number, constructed; attribute / value from the content
+         ensures=["id_class(%s) == 2" % _AVA, "id_number(%s) == num" % _AVA, "id_constructed(%s)" % _AVA, "rest_of(%s) == tail" % _AVA,
+                  "content_of(content_of(%s)) == attr_b" % _AVA, "content_of(rest_of(content_of(%s))) == val" % _AVA])
+_BRS = "cat(e_ver, e_name, e_auth)"
+contract("specs.ldapmsg:thm_rt_bind_request_simple",
+         requires=["tlv_of(e_ver, 0, False, 2, c_ver)", "tlv_of(e_name, 0, False, 4, name_b)", "tlv_of(e_auth, 2, False, 0, pw_b)"],
+         ensures=["content_of(%s) == c_ver" % _BRS, "content_of(rest_of(%s)) == name_b" % _BRS,
+                  "id_class(rest_of(rest_of(%s))) == 2" % _BRS, "id_number(rest_of(rest_of(%s))) == 0" % _BRS,
+                  "content_of(rest_of(rest_of(%s))) == pw_b" % _BRS])
+_SASL_C = "content_of(rest_of(rest_of(%s)))" % _BRS
+_IS_O = lambda s: "(len(%s) > 0 and id_class(%s) == 0 and id_number(%s) == 4 and not id_constructed(%s))" % (s, s, s, s)
+contract("specs.ldapmsg:thm_rt_bind_request_sasl",
+         requires=["tlv_of(e_ver, 0, False, 2, c_ver)", "tlv_of(e_name, 0, False, 4, name_b)",
+                   "tlv_of(e_auth, 2, True, 3, cat(e_mech, ite(has_cred, e_cred, empty())))", "tlv_of(e_mech, 0, False, 4, mech_b)",
+                   "implies(has_cred, tlv_of(e_cred, 0, False, 4, cred))"],
+         ensures=["content_of(%s) == c_ver" % _BRS, "content_of(rest_of(%s)) == name_b" % _BRS,
+                  "id_class(rest_of(rest_of(%s))) == 2" % _BRS, "id_number(rest_of(rest_of(%s))) == 3" % _BRS,
+                  "content_of(%s) == mech_b" % _SASL_C,
+                  "%s == has_cred" % _IS_O("rest_of(%s)" % _SASL_C),
+                  "implies(has_cred, content_of(rest_of(%s)) == cred)" % _SASL_C])
+_SRF = "cat(e_base, e_scope, e_deref, e_size, e_time, e_types, tail)"
+_R = lambda k: _SRF if k == 0 else "rest_of(%s)" % _R(k - 1)
+contract("specs.ldapmsg:thm_rt_search_request_fixed",
+         requires=["tlv_of(e_base, 0, False, 4, base_b)", "tlv_of(e_scope, 0, False, 10, c_scope)", "tlv_of(e_deref, 0, False, 10, c_deref)",
+                   "tlv_of(e_size, 0, False, 2, c_size)", "tlv_of(e_time, 0, False, 2, c_time)", "tlv_of(e_types, 0, False, 1, seq1(255 if types_only else 0))"],
+         ensures=["content_of(%s) == base_b" % _R(0), "content_of(%s) == c_scope" % _R(1), "content_of(%s) == c_deref" % _R(2),
+                  "content_of(%s) == c_size" % _R(3), "content_of(%s) == c_time" % _R(4),
+                  "len(content_of(%s)) == 1" % _R(5), "(content_of(%s)[0] != 0) == types_only" % _R(5), "%s == tail" % _R(6)])
